@@ -2,7 +2,7 @@
 from .common import *
 from . import wakers
 
-CRATES = (IM, UT,)
+CRATES = (IM,)
 
 META = {
     "explanation": (
@@ -21,7 +21,8 @@ META = {
 
 def run(ctx):
     F = ctx.facts
-    fns = wakers.poll_fns(F, (IM, UT) + ((EY,) if any("AsyncLock" in k for k in F.fns) else ()))
+    have = set(F.crates)
+    fns = wakers.poll_fns(F, tuple(c for c in (IM, UT) if c in have) + ((EY,) if (EY in have and ctx.has_async) else ()))
     # eyeball's sync subscriber is the C02 leaf's direct caller; keep only functions with their own Pending decision or forwarding
     n = 0
     for f, sites in sorted(fns, key=lambda x: x[0].key):
@@ -32,4 +33,5 @@ def run(ctx):
         n += 1
         wakers.check_poll_fn(ctx, "R14.1", f, sites)
         wakers.check_rearm(ctx, "R14.3", f, sites)
-    ctx.floor("R14.1", n, 8 if not ctx.has_async else 10)
+    floor = 2 + (6 if UT in have else 0) + (2 if (EY in have and ctx.has_async) else 0)
+    ctx.floor("R14.1", n, floor)
